@@ -90,6 +90,8 @@ def astype(self, dt, **k):
     SymArray = A.SymArray
     dt = _np.dtype(dt)
     src = self.dtype
+    if dt.kind == "S" and dt.itemsize == 0 and src.kind == "S":
+        dt = src
     if dt == src:
         return SymArray(self.vals.copy(), dt) if k.get("copy", True) else self
     if not A.has_sym(self) and src.kind != "S" and dt.kind != "S":
